@@ -7,6 +7,7 @@ import (
 	"go/types"
 	"math/big"
 	"os"
+	"runtime/debug"
 	"strings"
 
 	"golang.org/x/tools/go/ssa"
@@ -45,6 +46,9 @@ type specError struct{ msg string }
 func (s specError) Error() string { return "spec: " + s.msg }
 
 func specFail(format string, a ...interface{}) {
+	if os.Getenv("GOVC_SPECTRACE") != "" {
+		debug.PrintStack()
+	}
 	panic(specError{fmt.Sprintf(format, a...)})
 }
 
@@ -107,6 +111,13 @@ func (env *SpecEnv) eval(e Expr) SV {
 		}
 		if sv, ok := env.lookupGlobal(e.Name); ok {
 			return sv
+		}
+		if os.Getenv("GOVC_SPECTRACE") != "" {
+			var ks []string
+			for k := range env.Vars {
+				ks = append(ks, k)
+			}
+			fmt.Println("  names in scope:", ks)
 		}
 		specFail("unknown name %q", e.Name)
 	case EOld:
